@@ -49,6 +49,9 @@ func run() int {
 		fmt.Fprintln(os.Stderr, "usage: check <Cxx> [quick|thorough] | <Cxx> --replay <file>")
 		return 2
 	}
+	if args[0] == "--warm-cache" {
+		return warmCache()
+	}
 	id := args[0]
 	cfg, ok := props[id]
 	if !ok {
@@ -84,6 +87,19 @@ func run() int {
 		seed = -seed
 	}
 	t0 := time.Now()
+
+	// Build caches: every run works on hard-link clones of the warm base cache built by
+	// setup.sh and removes them afterwards, so the Go build cache cannot grow without bound
+	// (one case adds 1-5 MB of objects that are never needed again).
+	vd0 := verifDir()
+	cacheBase := filepath.Join(vd0, "out", "gocache-base")
+	runCache := filepath.Join(vd0, "out", fmt.Sprintf("gocache-run-%d", os.Getpid()))
+	cleanStaleRunCaches(filepath.Join(vd0, "out"))
+	_ = os.MkdirAll(runCache, 0o755)
+	defer os.RemoveAll(runCache)
+	if err := pipe.CloneCache(cacheBase, filepath.Join(runCache, "ctl")); err == nil {
+		os.Setenv("VERIF_GOCACHE", filepath.Join(runCache, "ctl"))
+	}
 
 	snap, err := pipe.NewSnapshot()
 	if err != nil {
@@ -164,7 +180,10 @@ func run() int {
 		args := []string{testBin, "-test.run", "^" + runName + "$", "-test.v", "-test.timeout", (hard + time.Minute).String(),
 			"-rapid.checks", strconv.Itoa(nchecks), "-rapid.seed", strconv.FormatUint(sseed, 10),
 			"-rapid.shrinktime", shrink, "-rapid.nofailfile"}
+		shardCache := filepath.Join(runCache, fmt.Sprintf("shard%02d", i))
+		_ = pipe.CloneCache(cacheBase, shardCache)
 		env := pipe.Env(append([]string{
+			"VERIF_GOCACHE=" + shardCache, "VERIF_GOCACHE_BASE=" + cacheBase,
 			"VERIF_SNAP=" + snap.Root, "VERIF_OUT=" + sdir, "VERIF_TIER=" + tier,
 			"VERIF_SHARD=" + strconv.Itoa(i), "VERIF_SHARD_SEED=" + strconv.FormatUint(sseed, 10),
 			"VERIF_SCRATCH_DIR=" + scratch, "VERIF_DIR=" + vd,
@@ -298,6 +317,7 @@ func runReplay(id, testBin string, snap *pipe.Snapshot, replay, outDir string) i
 	scratch, _ := os.MkdirTemp(pipe.ScratchRoot(), "verif-replay-")
 	defer os.RemoveAll(scratch)
 	env := pipe.Env("VERIF_SNAP="+snap.Root, "VERIF_OUT="+outDir, "VERIF_TIER=quick", "VERIF_REPLAY="+abs,
+		"VERIF_GOCACHE="+os.Getenv("VERIF_GOCACHE"),
 		"VERIF_SCRATCH_DIR="+scratch, "VERIF_DIR="+verifDir(), "VERIF_SHARD=0", "VERIF_SHARD_SEED=1")
 	cmd := exec.Command(testBin, "-test.run", "^TestReplay"+id+"$", "-test.v", "-test.timeout", "10m")
 	cmd.Env = env
@@ -345,4 +365,20 @@ func buildWire(snap *pipe.Snapshot) error {
 		return fmt.Errorf("%s", r.Stderr)
 	}
 	return nil
+}
+
+// cleanStaleRunCaches removes gocache-run-<pid> directories of driver processes that are gone.
+func cleanStaleRunCaches(outDir string) {
+	ents, err := os.ReadDir(outDir)
+	if err != nil {
+		return
+	}
+	for _, e := range ents {
+		var pid int
+		if n, _ := fmt.Sscanf(e.Name(), "gocache-run-%d", &pid); n == 1 {
+			if syscall.Kill(pid, 0) != nil {
+				_ = os.RemoveAll(filepath.Join(outDir, e.Name()))
+			}
+		}
+	}
 }
